@@ -50,6 +50,7 @@ class HistGen:
             "p_misuse": 0.02,
             "read_after_every_op": False,
             "big_values": True,
+            "file": True,
         }
         if profile:
             self.p.update(profile)
@@ -225,7 +226,9 @@ class HistGen:
                     for hh, (pp, alive) in list(handles.items()):
                         if pp[: len(pre)] == pre:
                             handles[hh] = (pp, False)
-                            if pp == pre and r.random() < self.p["p_misuse"] * 10:
+                            # only a handle to the deleted bucket itself (alive until now) is the
+                            # documented misuse; handles to its descendants are unspecified
+                            if alive and pp == pre and r.random() < self.p["p_misuse"] * 10:
                                 # documented misuse: the one permitted panic
                                 self.emit("get %d %d %s" % (t, hh, hx(b"a")))
                 elif x < 0.6:
@@ -294,6 +297,8 @@ class HistGen:
             self.committed = sh
 
     def verify(self):
+        if self.p.get("file"):
+            self.emit("file")
         t = self.next_tx
         self.next_tx += 1
         self.emit("begin %d r" % t)
@@ -306,7 +311,7 @@ class HistGen:
         for _ in range(self.p["txs"]):
             self.write_tx(r.randrange(1, self.p["ops"] + 1))
             self.verify()
-            if r.random() < 0.3:
+            if r.random() < self.p.get("p_dbcheck", 0.3):
                 self.emit("dbcheck")
             if r.random() < self.p["p_reopen"]:
                 self.emit("reopen")
@@ -371,6 +376,7 @@ def gen_range_deletes(nkeys, klen=200, vlen=10, every_bucket=0, touch=None, page
                 for x in range(i, j, 2):
                     lines.append("put 2 1 %s %s" % (hx(dkey(x, klen)), hx(b"again")))
             lines.append("commit 2")
+            lines.append("file")
             lines.append("begin 3 r")
             lines.append("dump 3")
             lines.append("getb 3 1 0 %s" % hx(b"root"))
